@@ -246,7 +246,25 @@ def lu(prog: Program, rep, x: ExcFlow) -> None:
         if flag_attr is None or flag_val is None or any(kind_of(a) is None for a in alt_nodes):
             raise AnalysisError(f"LUSolver factorises `{alts}`; cannot relate it to the given matrix")
         cond = U(flag_val)
-        if isinstance(arg, ast.IfExp) and U(arg.test) == cond and U(arg.body) == f"{mp}.T" and U(arg.orelse) == mp:
+        raw0 = calls[0].args[0]
+        per_branch = None
+        if len(fl) >= 2 and isinstance(raw0, ast.Name) and all(isinstance(s.stmt.value, ast.Constant) and isinstance(s.stmt.value.value, bool) for s in fl):
+            # matrix and flag chosen together, branch by branch: `if ..: F = mat.T; self.flag = True  elif ..: F = mat.tocsc(); self.flag = False`
+            mstores = [s for s in fi.order if isinstance(s.stmt, ast.Assign) and len(s.stmt.targets) == 1 and isinstance(s.stmt.targets[0], ast.Name) and s.stmt.targets[0].id == raw0.id]
+            pairs = []
+            for sf in fl:
+                same = [sm for sm in mstores if sm.facts == sf.facts and sm.loops == sf.loops]
+                if len(same) == 1:
+                    pairs.append((sf, same[0]))
+            if len(pairs) == len(fl) == len(mstores) and si.facts == [f for f in si.facts if all(f in p_[0].facts for p_ in pairs)]:
+                per_branch = pairs
+        if per_branch is not None:
+            for sf, sm in per_branch:
+                k_ = kind_of(fi.resolved(sm.stmt, sm.stmt.value))
+                rep.check(k_ is not None and sf.stmt.value.value == (k_ == "transposed"), "transposed-factor-flag", init.qualname, short(sf.stmt),
+                          f"the stored flag says 'factors belong to the transpose' exactly when the transpose was factorised (branch factorising `{U(sm.stmt.value)}`: "
+                          f"flag {sf.stmt.value.value})", init.loc(sf.stmt))
+        elif isinstance(arg, ast.IfExp) and U(arg.test) == cond and U(arg.body) == f"{mp}.T" and U(arg.orelse) == mp:
             pass   # F = mat.T if <flag> else mat, flag stored as that very condition
         elif U(arg) in cond:
             # the flag is computed FROM the factorised object (identity test): evaluate it for every alternative
@@ -349,6 +367,17 @@ def iterative(prog: Program, rep) -> None:
         mat_t = U(a[0]) if a else ""
         rhs_ok = len(a) >= 2 and U(a[1]) == "rhs"
         rep.check(rhs_ok, "iterative-wiring", sv.qualname, short(si.stmt), f"{backend} solves for the given right-hand side", sv.loc(call))
+        # options of the back end: only the ones whose meaning the rules know; `callback_type="legacy"` makes gmres count INNER
+        # iterations against maxiter (n restart cycles become n inner steps), so solvable systems larger than the restart length fail
+        known_kw = {"x0", "tol", "rtol", "atol", "maxiter", "restart", "M", "callback", "callback_type", "shift", "show", "check"}
+        unknown_kw = [k.arg for k in call.keywords if k.arg not in known_kw]
+        if unknown_kw:
+            raise AnalysisError(f"{cname}.solve passes option(s) {unknown_kw} to {backend}, whose effect on the result the rules do not know")
+        ct = kwarg(call, "callback_type")
+        if ct is not None:
+            ctv = ff.resolved(si.stmt, ct)
+            rep.check(isinstance(ctv, ast.Constant) and ctv.value in ("pr_norm", "x", None), "iterative-wiring", sv.qualname, short(si.stmt),
+                      f"{backend} is not run with callback_type='legacy' (which changes what maxiter counts: inner iterations instead of restart cycles)", sv.loc(call))
         if cname == "GMRESSolver":
             alts = {U(z) for z in phi_alternatives(a[0])}
             ok = alts == {"self.mat.T", "self.mat"}
